@@ -556,6 +556,9 @@ def build_fragmented(tracks, fragments, movie_ts=1000, trex_dur=0, extra_between
                              extra_flags=TFHD_MOOF if tf.get("moof_flag") else 0)]
                 if tf.get("tfdt") is not None:
                     kids.append(tfdt(tf["tfdt"], tf.get("tfdt_v", 0)))
+                # further track runs of the same track fragment, in front of the main one (the reader keeps one run per traf: the last)
+                for ex in tf.get("extra_truns", ()):
+                    kids.append(trun(len(ex["sizes"]), ex.get("data_offset"), None, ex.get("durations"), ex["sizes"], None, ex.get("cts")))
                 if tf.get("trun", True):
                     kids.append(trun(len(tf["sizes"]), offsets[ti] if tf.get("with_offset", True) else None, None, tf.get("durations"), tf["sizes"], None, tf.get("cts")))
                 trafs.append(Box("traf", kids))
